@@ -4,6 +4,7 @@ import (
 	"encoding/json"
 	"fmt"
 	"sort"
+	"strconv"
 	"strings"
 
 	"verif/internal/fw"
@@ -18,6 +19,8 @@ type c17Case struct {
 	TextB string   `json:"text_b"`
 	Req   *sl.Req  `json:"req"`
 	Kinds []string `json:"kinds"`
+	// RejectA: configuration A names, by a single id, a rule an earlier directive removed ("rule not found" expected)
+	RejectA bool `json:"reject_a,omitempty"`
 	// Follow-up isolation probe: same WAF A, second request, compared with BaseText on a fresh WAF.
 	BaseText string  `json:"base_text,omitempty"`
 	Req2     *sl.Req `json:"req2,omitempty"`
@@ -60,6 +63,12 @@ func c17Base(r gen.R) (*sl.Program, []string) {
 		if gen.Chance(r, 0.25) {
 			rule.Targets = []sl.Sel{{Var: "ARGS_GET"}}
 			rule.Op = &sl.Op{Name: "streq", Arg: fmt.Sprintf("v%d", id)}
+		}
+		if gen.Chance(r, 0.12) {
+			// a counting target: fires when the argument is absent (or present once); removing exactly that
+			// target must leave "count 0", not an unevaluated rule
+			rule.Targets = []sl.Sel{{Var: "ARGS_GET", Kind: 1, Key: a, Count: true}}
+			rule.Op = &sl.Op{Name: "eq", Arg: gen.Pick(r, []string{"0", "0", "1"})}
 		}
 		nt := r.IntN(3)
 		for k := 0; k < nt; k++ {
@@ -331,6 +340,34 @@ func c17Build(r gen.R) (*c17Case, bool) {
 				b.Items = append(b.Items, sl.Item{Rule: ru})
 			}
 		}
+		// a single id named by an update directive after an earlier directive removed that rule: "not found"
+		gone := map[int]bool{}
+		for _, m := range mods {
+			if strings.HasPrefix(m.Kind, "upd") && strings.HasSuffix(m.Kind, "ById") && len(m.IDs) == 1 && gone[m.IDs[0]] && c17SingleID(m.Text) {
+				c.RejectA = true
+			}
+			for _, it := range base.Items {
+				if !gone[it.Rule.ID] && c17Apply(cloneRule(it.Rule), m) == nil {
+					gone[it.Rule.ID] = true
+				}
+			}
+		}
+		// replacement rules: an id freed by a removal directive is used again by a rule defined afterwards
+		if len(gone) > 0 && gen.Chance(r, 0.4) {
+			var ids []int
+			for id := range gone {
+				ids = append(ids, id)
+			}
+			sort.Ints(ids)
+			id := gen.Pick(r, ids)
+			name := fmt.Sprintf("r%d", id)
+			steers = append(steers, name)
+			rep := &sl.Rule{ID: id, Phase: 1 + r.IntN(4), Severity: -1, Targets: []sl.Sel{{Var: "ARGS_GET", Kind: 1, Key: name}},
+				Op: &sl.Op{Name: "streq", Arg: "1"}, Setvars: []sl.Setvar{{Key: fmt.Sprintf("rep%d", id), Kind: "+", Val: "1"}}}
+			a.Items = append(a.Items, sl.Item{Rule: rep})
+			b.Items = append(b.Items, sl.Item{Rule: rep})
+			c.Kinds = append(c.Kinds, "id-reused-after-removal")
+		}
 		c.TextA, c.TextB = a.Render(), b.Render()
 		c.Req = c17Request(r, steers, base)
 		return c, true
@@ -509,6 +546,16 @@ func c17CtlTarget(r gen.R, id int) *sl.Sel {
 	return &sl.Sel{Var: gen.Pick(r, []string{"ARGS_GET", "ARGS"}), Kind: 2, Key: fmt.Sprintf("^[ab]%d$", id), Excl: true}
 }
 
+// c17SingleID: the directive names exactly one id (no list, no range).
+func c17SingleID(text string) bool {
+	f := strings.Fields(text)
+	if len(f) < 2 {
+		return false
+	}
+	_, err := strconv.Atoi(f[1])
+	return err == nil && (len(f) == 2 || strings.HasPrefix(f[2], "\""))
+}
+
 func c17Request(r gen.R, steers []string, base *sl.Program) *sl.Req {
 	req := &sl.Req{Method: "POST", Path: "/x", Status: 200}
 	for _, s := range gen.Subset(r, steers, gen.Pick(r, []float64{0.5, 0.8, 0.3})) {
@@ -548,7 +595,15 @@ func c17Judge(w *fw.W, c *c17Case) {
 	if errA != nil {
 		// a configuration whose directive form is rejected: the rewritten form must be judged only when A builds
 		w.Count("config_a_rejected", 1)
-		w.Cover("config_a_errors", strings.SplitN(errA.Error(), "\n", 2)[0])
+		first := strings.SplitN(errA.Error(), "\n", 2)[0]
+		w.Cover("config_a_errors", first)
+		if !c.RejectA || !strings.Contains(first, "not found") {
+			// nothing in A is invalid: every directive names rules by list, range, tag or message, or a single id that exists
+			if b, errB := sl.BuildText(c.TextB); errB == nil {
+				sl.CloseWAF(b)
+				w.Violation("directive-form-rejected:"+c17KindClass(c.Kinds), "construction differential A (directives) vs B (rewritten rules)", c, "both configurations build", first, "configuration A is rejected although the rewritten rule set builds")
+			}
+		}
 		return
 	}
 	defer sl.CloseWAF(a)
